@@ -373,7 +373,11 @@ func c07R3(c *Ctx) {
 				good = true
 			}
 		}
-		c.check(good, "getNewName/return."+name.Name(), c.ipos(ret), "returned name was just Stat'ed as non-existing under the destination",
+		kind := "numbered-name"
+		if _, isP := strip(name).(*ssa.Parameter); isP {
+			kind = "plain-name"
+		}
+		c.check(good, "getNewName/return."+kind, c.ipos(ret), "returned name was just Stat'ed as non-existing under the destination",
 			"getNewName returns a name without a dominating IsNotExist(Stat(Join(path, thatName))) == true")
 	})
 	if n < 2 {
